@@ -497,9 +497,12 @@ def splice_fn(repo, file, item_path, sections, trait=None, nth=0, opts=(), canar
     # code of the function.  The receiver text must occur (else the anchor is lost).
     for dk in sorted(k for k in sections if k.startswith('desugar ')):
         want = [t.text for t in rs.tokenize(sections[dk]) if t.kind not in ('ws', 'comment', 'doc')]
-        if len(want) < 3 or want[-2] != '.' or want[-1] not in ('map', 'and_then', 'filter'):
-            raise AnchorLost('template: //@%s must end in .map / .and_then / .filter' % dk)
+        if len(want) < 3 or want[-2] != '.' or want[-1] not in ('map', 'and_then', 'filter', 'any'):
+            raise AnchorLost('template: //@%s must end in .map / .and_then / .filter / .any' % dk)
         method = want[-1]
+        dk_words = dk.split()
+        dk_id = dk_words[1]
+        on_result = len(dk_words) > 2 and dk_words[2] == 'result'      # `//@desugar K result`: the receiver is a Result (Ok / Err)
         body_ci = [k for k in range(body_open + 1, body_close) if toks[k].kind not in ('ws', 'comment', 'doc')]
         posm = {k: p for p, k in enumerate(body_ci)}
         hits = []
@@ -526,8 +529,23 @@ def splice_fn(repo, file, item_path, sections, trait=None, nth=0, opts=(), canar
             pat = ' '.join(''.join(t.text for t in toks[body_ci[pm + 2] + 1:body_ci[q]]).split())
             if ':' in pat:
                 raise AnchorLost('%s: //@%s: typed closure parameter' % (item_path, dk))
+            if method == 'any':
+                # X2f: `ITER.any(|PAT| BODY)` written as the loop std defines it to be (Iterator::any: stop at the first element for
+                # which the closure is true); the ghost code and the loop contract come from `//@any_before K`, `//@any_inv K`,
+                # `//@any_body K`
+                kk = re.sub(r'\W', '_', dk_id)
+                ed.ins_before(body_ci[p0], '({ let mut cv_any%s = false; %s let mut cv_ait%s = (' % (kk, sections.get('any_before ' + dk_id, '').strip(), kk))
+                ed.replace(body_ci[pm - 1], body_ci[q], ').into_iter(); while let Some(%s) = cv_ait%s.next() %s { %s if ' % (
+                    pat, kk, sections.get('any_inv ' + dk_id, '').strip(), sections.get('any_body ' + dk_id, '').strip()))
+                ed.replace(call_close, call_close, ' { cv_any%s = true; break; } } cv_any%s })' % (kk, kk))
+                rules['X2f-any'] = rules.get('X2f-any', 0) + 1
+                dropped.append('%s:%d Iterator::any with an inline closure written as the loop it abbreviates (X2f)' % (file, toks[body_ci[pm]].line))
+                continue
             ed.ins_before(body_ci[p0], '(match (')
-            if method == 'map':
+            if method == 'map' and on_result:
+                ed.replace(body_ci[pm - 1], body_ci[q], ') { Ok(%s) => Ok(' % pat)
+                ed.replace(call_close, call_close, '), Err(cv_e) => Err(cv_e) })')
+            elif method == 'map':
                 ed.replace(body_ci[pm - 1], body_ci[q], ') { Some(%s) => Some(' % pat)
                 ed.replace(call_close, call_close, '), None => None })')
             elif method == 'and_then':
@@ -619,7 +637,7 @@ def splice_fn(repo, file, item_path, sections, trait=None, nth=0, opts=(), canar
             dropped.append('%s:%d statement replaced by an assumed environment call (X7): %s' % (
                 file, toks[a_idx].line, ' '.join(sections[rk].split())[:300]))
     for key, text in sections.items():
-        if key.startswith('replace ') or key.startswith('replace_all ') or key.startswith('with ') or key.startswith('desugar '):
+        if key.startswith('replace ') or key.startswith('replace_all ') or key.startswith('with ') or key.startswith('desugar ') or key.startswith('any_'):
             continue
         if not text.strip() and key != 'spec' and not key.startswith('ret '):
             continue
